@@ -65,6 +65,9 @@ func Main(replay func(bi int, beh []Step, in *Input, res *Result)) {
 		}
 		// the chunk crashed: isolate
 		for bi := lo; bi < hi; bi++ {
+			if (stopAfter > 0 && len(total.Violations) >= stopAfter) || (budget > 0 && time.Since(began) > budget) {
+				break // (the skipped behaviours are counted by the chunk loop's own check: it runs next and stops the run)
+			}
 			r, out := child(bi, bi+1, in)
 			if r != nil {
 				merge(total, r)
